@@ -20,11 +20,11 @@ Definition ignores_underb (mk : modk) : bool :=
   match mk with
   | MWith | MOff | MAbove | MBelow | MFork | MBracket | MTry | MDipN _
   | MReduce | MScan | MFold | MRows | MEach | MInventory | MTable | MTuples | MGroup | MPartition
-  | MSpawn | MPool => true
+  | MSpawn | MPool | MRepeat => true
   | _ => false end.
 (** modifiers checked in context whose run-time form uses the stored signature: it must be the inferred one *)
 Definition needs_exactb (mk : modk) : bool :=
-  match mk with MBy | MRows | MEach | MInventory => true | _ => false end.
+  match mk with MBy | MRows | MEach | MInventory | MRepeat => true | _ => false end.
 
 Section Ok.
   Variable asm : list node.
@@ -71,7 +71,7 @@ Definition mod_modelled (mk : modk) (nargs : nat) : bool :=
   match mk, nargs with
   | (MDip | MGap | MOn | MBy | MWith | MOff | MAbove | MBelow | MBoth | MCase | MDipN _
      | MReduce | MScan | MFold | MRows | MEach | MInventory | MTable | MTuples | MGroup | MPartition
-     | MSpawn | MPool), 1 => true
+     | MSpawn | MPool | MRepeat), 1 => true
   | (MFork | MBracket | MFill | MTry), 2 => true
   | _, _ => false end.
 Fixpoint exec_modelled (n : node) : bool :=
